@@ -63,7 +63,8 @@ class Ctx:
         self.prop, self.tier, self.seed = prop, tier, seed
         self.t0 = time.time()
         self.scratch = tempfile.mkdtemp(prefix="verif_%s_" % prop)
-        atexit.register(lambda: shutil.rmtree(self.scratch, ignore_errors=True))
+        if not os.environ.get("VERIF_KEEP"):     # debug aid: VERIF_KEEP=1 leaves the scratch directory (specs, vectors) in place
+            atexit.register(lambda: shutil.rmtree(self.scratch, ignore_errors=True))
         self.specdir = os.path.join(self.scratch, "spec")
         shutil.copytree(SPEC, self.specdir)
         self.failures = []       # monitor failures on REAL traces: dicts
